@@ -639,6 +639,7 @@ def run(chk, fb, tier):
     rule_order(chk, fb)
     rule_rows(chk, fb)
     channels.rule_attr_escape(chk, fb, "C02.g")
+    channels.rule_legal_chars(chk, fb, "C02.g.chars")
     rule_space(chk, fb)
     rule_sheet_names(chk, fb, "C02.i")
     C01.rule_escape(chk, fb)
